@@ -192,6 +192,15 @@ def check_handler(chk, repo, f, t, h, rid, expect_slot=None):
                     keeps = [i for i, e in enumerate(elts) if unparse(e) == f"success_flags[{i}]"]
                     if len(falses) == 1 and len(falses) + len(keeps) == 3 and (expect_slot is None or falses[0] == expect_slot):
                         recorded = True
+                if isinstance(a, ast.Assign) and len(a.targets) == 1 and isinstance(a.targets[0], ast.Subscript) and isinstance(a.value, ast.Constant) \
+                        and a.value.value is False and isinstance(a.targets[0].slice, ast.Constant) and isinstance(a.targets[0].value, ast.Name):
+                    # the flags are kept in a list mutated by index (`flags[k] = False`) and returned as / converted to the tuple
+                    if expect_slot is None or a.targets[0].slice.value == expect_slot:
+                        fl_ = a.targets[0].value.id
+                        inits_ = [x for x in ast.walk(f.node) if isinstance(x, (ast.Assign, ast.AnnAssign)) and unparse(x.targets[0] if isinstance(x, ast.Assign) else x.target) == fl_
+                                  and isinstance(x.value, (ast.List, ast.Tuple)) and len(x.value.elts) == 3]
+                        if inits_ and any(isinstance(r_, ast.Return) and r_.value is not None and fl_ in {n_.id for n_ in ast.walk(r_.value) if isinstance(n_, ast.Name)} for r_ in ast.walk(f.node)):
+                            recorded = True
                 if isinstance(a, ast.Assign) and len(a.targets) == 1 and isinstance(a.targets[0], ast.Name) and isinstance(a.value, ast.Constant) \
                         and a.value.value is False:
                     # separate success locals assembled into the flags tuple later: the name must sit at the unit's slot
